@@ -363,3 +363,109 @@ Corollary seg_bits_range fuel bmn bmx order f bv c :
 Proof.
   intros mn mx v Hf. apply (seg_range_full fuel mn mx order f v c Hf); apply of_bits_valid.
 Qed.
+
+(* ------------------------------------------- termination of the nextafter loop *)
+Lemma to_of_bits b : (b < 2047 * 2 ^ 52)%N -> f64_to_bits (f64_of_bits b) = b.
+Proof.
+  intros Hb. rewrite of_bits_unfold. cbv zeta.
+  assert (Hz : 0 <= Z.of_N b < 2047 * 2 ^ 52) by lia.
+  destruct (fields (Z.of_N b) (N2Z.is_nonneg b)) as [He [Hm [Ee Em]]].
+  set (e := Z.land (Z.shiftr (Z.of_N b) 52) 2047) in *.
+  set (m := Z.land (Z.of_N b) 4503599627370495) in *.
+  assert (S : Z.testbit (Z.of_N b) 63 = false).
+  { destruct (Z.eq_dec (Z.of_N b) 0) as [E|E]; [rewrite E; apply Z.testbit_0_l|].
+    apply Z.bits_above_log2; [lia|]. apply Z.log2_lt_pow2; [lia|].
+    change (2 ^ 63) with (2048 * 2 ^ 52). lia. }
+  assert (Q : 0 <= Z.of_N b / 2 ^ 52 < 2047).
+  { split; [apply Z.div_pos; lia | apply Z.div_lt_upper_bound; lia]. }
+  assert (Ee' : e = Z.of_N b / 2 ^ 52) by (rewrite Ee; apply Z.mod_small; lia).
+  assert (DM : Z.of_N b = 2 ^ 52 * e + m) by (rewrite Ee', Em; apply Z.div_mod; lia).
+  rewrite S. change (2 ^ 52) with 4503599627370496 in *.
+  destruct (Z.eqb_spec e 0) as [E0 | E0].
+  - destruct m as [|p|p] eqn:Em'.
+    + cbn. lia.
+    + unfold to_bits. cbv zeta. change (2 ^ (53 - 1)) with 4503599627370496.
+      destruct (Z.ltb_spec (Z.pos p) 4503599627370496); lia.
+    + lia.
+  - destruct (Z.eqb_spec e 2047) as [E1 | E1]; [lia|].
+    destruct (m + 4503599627370496) as [|p|p] eqn:Em'; try lia.
+    unfold to_bits. cbv zeta. change (2 ^ (53 - 1)) with 4503599627370496.
+    destruct (Z.ltb_spec (Z.pos p) 4503599627370496); lia.
+Qed.
+
+Lemma nextafter_pos m e : bounded 53 1024 m e = true ->
+  nextafter (S754_finite false m e) f64_zero = f64_of_bits (f64_to_bits (S754_finite false m e) - 1).
+Proof.
+  intros V. destruct (to_bits_small m e V) as [Hlt Hge].
+  unfold nextafter.
+  change (feq (S754_finite false m e) f64_zero) with false.
+  change (SFloat.is_nan (S754_finite false m e) || SFloat.is_nan f64_zero) with false.
+  change (fge (S754_finite false m e) (f64_inf false)) with false.
+  change (fle (S754_finite false m e) (f64_inf true)) with false.
+  change (Bool.eqb (flt (S754_finite false m e) f64_zero) (flt f64_zero (S754_finite false m e))) with false.
+  cbv iota. cbn [sign_of].
+  set (ret := f64_of_bits (f64_to_bits (S754_finite false m e) - 1)).
+  assert (Hb : (f64_to_bits (S754_finite false m e) - 1 < 2047 * 2 ^ 52)%N) by lia.
+  destruct (of_bits_small _ Hb) as [Fr Sr]. fold ret in Fr, Sr.
+  destruct (feq ret f64_zero); [|reflexivity].
+  destruct ret as [sr|sr| |sr mr er]; try discriminate; cbn in Sr; subst sr; reflexivity.
+Qed.
+
+(* n > 0 is never <= w * 0 *)
+Lemma exit_at_zero mn' en w : fle (S754_finite false mn' en) (f64_mul w (S754_zero false)) = false.
+Proof. destruct w as [s|s| |s m e]; try reflexivity; destruct s; reflexivity. Qed.
+
+Lemma seg_loop_terminates mn' en w (k : nat) : forall f,
+  good f -> (f64_to_bits f <= N.of_nat k)%N ->
+  forall fuel, (k <= fuel)%nat -> exists f', seg_loop fuel (S754_finite false mn' en) w f = Ok f'.
+Proof.
+  induction k as [|k IH]; intros f G Hk fuel Hfuel.
+  - (* pattern 0: f = +0.0, the loop exits *)
+    destruct G as [V [F S]]. destruct f as [s|s| |s m e]; try discriminate; cbn in S; subst s.
+    + exists (S754_zero false). destruct fuel; cbn [seg_loop]; rewrite exit_at_zero; reflexivity.
+    + cbn [valid_binary] in V. destruct (to_bits_small m e V). lia.
+  - destruct (fle (S754_finite false mn' en) (f64_mul w f)) eqn:E.
+    + destruct fuel as [|fuel']; [lia|]. cbn [seg_loop]. rewrite E.
+      pose proof G as G0. destruct G as [V [F S]].
+      destruct f as [s|s| |s m e]; try discriminate; cbn in S; subst s.
+      * rewrite exit_at_zero in E. discriminate.
+      * cbn [valid_binary] in V. destruct (to_bits_small m e V) as [Hlt Hge].
+        apply IH; [apply nextafter_good; assumption | | lia].
+        rewrite (nextafter_pos m e V), to_of_bits by lia. lia.
+    + exists f. destruct fuel; cbn [seg_loop]; rewrite E; reflexivity.
+Qed.
+
+(* segment_to_segment returns for every finite interval and every order < 64 *)
+Theorem seg_factor_terminates mn mx order :
+  valid_binary 53 1024 mn = true -> valid_binary 53 1024 mx = true ->
+  SFloat.is_finite mn = true -> SFloat.is_finite mx = true ->
+  fle mn mx = true -> (order < 64)%N ->
+  exists fuel0 : nat, forall fuel, (fuel0 <= fuel)%nat -> exists f, seg_factor fuel mn mx order = Ok f.
+Proof.
+  intros Vmn Vmx Fmn Fmx Hle Ho.
+  unfold seg_factor, seg_factor_gen. change seg_factor_capped with true.
+  rewrite Hle. cbn [negb]. destruct (N.leb_spec 64 order) as [|_]; [lia|]. cbv zeta iota.
+  destruct (pow2_float_form order Ho) as [Bn En]. rewrite En. cbn [B2SF].
+  set (Bmn := SF2B mn Vmn). set (Bmx := SF2B mx Vmx).
+  assert (Emn : mn = B2SF Bmn) by (symmetry; apply B2SF_SF2B).
+  assert (Emx : mx = B2SF Bmx) by (symmetry; apply B2SF_SF2B).
+  assert (Fmn' : finB Bmn = true) by (unfold Bmn; rewrite fin_SF2B; assumption).
+  assert (Fmx' : finB Bmx = true) by (unfold Bmx; rewrite fin_SF2B; assumption).
+  clearbody Bmn Bmx. subst mn mx. rewrite fle_link in Hle.
+  destruct (width_sign Bmx Bmn Fmx' Fmn' Hle) as [Nw [Sw | [Cx Cn]]].
+  - rewrite sub_link.
+    pose proof (f0_good _ _ Bn (Bminus mode_NE Bmx Bmn) Nw Sw) as G. cbn [B2SF] in G.
+    set (f0 := f64_min _ _) in *.
+    exists (N.to_nat (f64_to_bits f0)). intros fuel Hfuel.
+    apply (seg_loop_terminates _ _ _ (N.to_nat (f64_to_bits f0))); [assumption | lia | assumption].
+  - subst. exists 0%nat. intros fuel _. cbn [B2SF].
+    change (f64_sub (S754_zero true) (S754_zero false)) with (S754_zero true).
+    change (f64_div (S754_finite false 4503599627370496 (Z.of_N order - 52)) (S754_zero true))
+      with (S754_infinity true).
+    change (f64_min (S754_infinity true) f64_max_value) with (S754_infinity true).
+    exists (S754_infinity true).
+    destruct fuel; cbn [seg_loop];
+      change (f64_mul (S754_zero true) (S754_infinity true)) with S754_nan;
+      change (fle (S754_finite false 4503599627370496 (Z.of_N order - 52)) S754_nan) with false;
+      reflexivity.
+Qed.
